@@ -52,6 +52,9 @@ def gen(tier):
     # the count names a field of an anonymous structure member parsed before the array (such fields are fields of the parent)
     yield "anon-count", ["struct", "test", [[None, ["struct", "", [["n", G.U8, None], ["m", G.U8, None]], True], None],
                                              ["d", G.arr(G.U8, ["expr", ["bin", "&", ["id", "n"], ["num", 3]]]), None], ["t", G.U8, None]], False]
+    # element types that share a __name__ (uint48 is named "int48"; inline structures with one tag): each array keeps its own
+    for name in ("same-name-arrays", "same-tag-inline-a"):
+        yield name, ["struct", "test", [list(f) for f in dict(G.CURATED)[name]], False]
     yield "late-const", ["struct", "test", [["n", G.U8, None], ["d", G.arr(G.U8, ["expr", ["bin", "&", ["id", "n"], ["num", 3]]]), None], ["t", G.U8, None]], False]
     yield "two-arrays", ["struct", "test", [["n", G.U8, None], ["m", G.U8, None], ["a", G.arr(G.U16, ["expr", ["bin", "&", ["id", "n"], ["num", 1]]]), None],
                                              ["b", G.arr(G.CHAR, ["expr", ["bin", "+", ["bin", "&", ["id", "m"], ["num", 1]], ["bin", "&", ["id", "n"], ["num", 1]]]]), None],
@@ -94,6 +97,15 @@ def make(case):
         if err:
             return
         data = ctx.bytes("b", n)
+        if case.get("nonzero_units"):
+            # long strings: the first units are constrained to be non-zero (no fork), the units around the 64/256-byte marks
+            # that block-wise readers use stay free
+            units, w = case["nonzero_units"]
+            for i in range(units):
+                if T[2][1][1][1][0] == "wchar":   # both bytes in 1..0x7f: non-zero and no surrogate in either byte order (no fork)
+                    ctx.constrain(R.And(*[R.And(data[1 + i * w + j] >= 1, data[1 + i * w + j] <= 0x7F) for j in range(w)]))
+                else:
+                    ctx.constrain(R.Or(*[data[1 + i * w + j] != 0 for j in range(w)]))
         if case["label"].endswith("[wide]"):
             m = R.decode_int(data, 0, 2, False, cfg["endian"] == ">")
             ctx.assume(m <= 3603, "wide-range count cases: count expression m - 3600 <= 3 (all negative values and 0..3)")
@@ -211,11 +223,19 @@ def cases(tier, seed):
                 n = 2 + 3 * es + 1
             if "[2][3]" in label:
                 n = 1 + (4 if forks > 1 else 6) * es + (1 if forks > 1 else 2)
+            if label.startswith("same-"):
+                n = H.input_len(T, cfg)
             yield {"label": label, "T": T, "cfg": cfg, "nbytes": n}
+    # zero-terminated strings longer than the block sizes an optimised reader might use (64 / 256 bytes)
+    for cfg in families.PAIRWISE:
+        for ename, ET, w, units in (("char", G.CHAR, 1, 62), ("char", G.CHAR, 1, 126), ("wchar", G.WCHAR, 2, 30), ("wchar", G.WCHAR, 2, 126),
+                                    ("u16", G.U16, 2, 126)):
+            T = ["struct", "test", [["n", G.U8, None], ["d", G.arr(ET, None), None], ["t", G.U16, None]], False]
+            yield {"label": f"{ename}[nul] long {units}", "T": T, "cfg": cfg, "nbytes": 1 + (units + 5) * w + 2, "nonzero_units": [units, w]}
     for ename, ET in ELEMS:
         if ET[0] in ("float", "arr"):
             continue
-        for cnt in (1, 2):
+        for cnt in (0, 1, 2):
             for cfg in families.PAIRWISE:
                 if not cfg["compiled"]:
                     yield {"label": f"write {ename}[{cnt}]", "ET": ET, "count": cnt, "cfg": cfg, "make": "make_write"}
